@@ -273,6 +273,47 @@ impl Fixed {
 //@end
 }
 
+pub open spec fn ssub(a: int, b: int) -> int { if a - b > 0x7FFF_FFFF { 0x7FFF_FFFF } else if a - b < -0x8000_0000 { -0x8000_0000 } else { a - b } }
+pub open spec fn clampi(v: int, lo: int, hi: int) -> int { if v < lo { lo } else if v > hi { hi } else { v } }
+// the functional content of normalize for a consistent axis record (min <= default <= max)
+pub open spec fn norm_post(min: int, def: int, max: int, value: int, r: int) -> bool {
+    min <= def <= max ==> ({
+        let v = clampi(value, min, max);
+        &&& (v < def ==> -65536 <= r <= 0 && is_rha_nonneg(ssub(def, v) * 65536, ssub(def, min), -r))
+        &&& (v > def ==> 0 <= r <= 65536 && is_rha_nonneg(ssub(v, def) * 65536, ssub(max, def), r))
+        &&& (v == def ==> r == 0)
+    })
+}
+pub proof fn lemma_rha_monotone(n1: int, n2: int, d: int, q1: int, q2: int)
+    requires d > 0, n1 <= n2, is_rha_nonneg(n1, d, q1), is_rha_nonneg(n2, d, q2)
+    ensures q1 <= q2
+{
+    assert(q1 < q2 + 1) by(nonlinear_arith)
+        requires d > 0, 2 * q1 * d <= 2 * n1 + d, n1 <= n2, 2 * n2 + d < 2 * (q2 + 1) * d;
+}
+// C11: "the mapping is monotone"
+pub proof fn lemma_normalize_monotone(min: int, def: int, max: int, x: int, y: int, rx: int, ry: int)
+    requires min <= def <= max, x <= y, norm_post(min, def, max, x, rx), norm_post(min, def, max, y, ry),
+        -0x8000_0000 <= min, max <= 0x7FFF_FFFF,
+    ensures rx <= ry
+{
+    let vx = clampi(x, min, max);
+    let vy = clampi(y, min, max);
+    assert(vx <= vy);
+    if vx < def && vy < def {
+        let d = ssub(def, min);
+        assert(d > 0);
+        assert(ssub(def, vy) <= ssub(def, vx));
+        assert(ssub(def, vy) * 65536 <= ssub(def, vx) * 65536);
+        lemma_rha_monotone(ssub(def, vy) * 65536, ssub(def, vx) * 65536, d, -ry, -rx);
+    } else if vx > def && vy > def {
+        let d = ssub(max, def);
+        assert(d > 0);
+        assert(ssub(vx, def) * 65536 <= ssub(vy, def) * 65536);
+        lemma_rha_monotone(ssub(vx, def) * 65536, ssub(vy, def) * 65536, d, rx, ry);
+    }
+}
+
 // the three fixed-point fields of an fvar axis record (the generated big-endian getters are replaced by plain fields)
 //@require source=fvar seq="impl VariationAxisRecord {"
 pub struct VariationAxisRecord { pub min: Fixed, pub def: Fixed, pub max: Fixed }
@@ -292,8 +333,22 @@ impl VariationAxisRecord {
             // sign: below default is never positive, above default never negative
             (self.min.0 <= self.def.0 <= self.max.0 && value.0 <= self.def.0) ==> r.0 <= 0,
             (self.min.0 <= self.def.0 <= self.max.0 && value.0 >= self.def.0) ==> r.0 >= 0,
+            // the full functional content for consistent records (used by lemma_normalize_monotone: the mapping is monotone)
+            norm_post(self.min.0 as int, self.def.0 as int, self.max.0 as int, value.0 as int, r.0 as int),
 //@at body-start
         proof { assert(1i32 << 16 == 65536i32) by(bit_vector); }
+//@at before "-((default_value.saturating_sub(value))"
+                proof {
+                    let a = ssub(default_value.0 as int, value.0 as int); let b = ssub(default_value.0 as int, min_value.0 as int);
+                    assert(0 < a <= b);
+                    lemma_div_corollaries(a, b);
+                }
+//@at before "(value.saturating_sub(default_value)) / (max_value"
+                proof {
+                    let a = ssub(value.0 as int, default_value.0 as int); let b = ssub(max_value.0 as int, default_value.0 as int);
+                    assert(0 < a <= b);
+                    lemma_div_corollaries(a, b);
+                }
 //@end
 }
 
